@@ -119,3 +119,30 @@ def account(run, obs):
             run.cov["discharged"] += 1
         else:
             run.violation(o["id"], o["detail"], {"obligation": o["id"]}, False, extra={"obligation": o["id"], "solver": BACKEND, "solver_status": "refuted"})
+
+
+# modules whose functions must leave what they are given untouched, for the properties that say the answer is a function of the input / can be asked again
+FRAME_MODULES = {
+    "C03": (["py_gql.lang.printer"], "printing changes the tree it prints, so printing it again (or re-parsing and comparing) sees another tree", None),
+    "C15": (["py_gql.schema.introspection", "py_gql.utilities.ast_node_from_value"], "answering an introspection request changes the schema it reports on", None),
+    "C19": (["py_gql.utilities.max_depth"], "measuring the depth changes the document it measures", None),
+    "C20": (["py_gql.schema.differ"], "diffing changes one of the schemas it compares", None),
+}
+
+
+def run(run, pid):
+    import importlib
+    if pid not in FRAME_MODULES:
+        return
+    modules, what, protected = FRAME_MODULES[pid]
+    funcs = []
+    for m in modules:
+        M = importlib.import_module(m)
+        short = m.split("py_gql.")[-1]
+        for n, o in vars(M).items():
+            if inspect.isfunction(o) and o.__module__ == M.__name__:
+                funcs.append(("%s.%s" % (short, n), o))
+            if inspect.isclass(o) and o.__module__ == M.__name__:
+                funcs += [("%s.%s.%s" % (short, n, k), f) for k, f in vars(o).items() if inspect.isfunction(f)]
+    account(run, obligations(funcs, "frame", what, protected=protected))
+    run.cov["functions_under_contract"].append("%s (frame: arguments are not modified in place; %d functions)" % (", ".join(modules), len(funcs)))
